@@ -204,6 +204,18 @@ Section Modes.
   Qed.
 End Modes.
 
+(* the three chi-squared code paths of fit_util.py coincide (every NumOps, no shape hypothesis) *)
+Theorem chi_squared_paths_agree {O : NumOps} (d : list (T O)) (mk : list bool) (m n : list (T O)) :
+  let via_maps := chi_squared_with_mask_from
+                    (chi_squared_map_with_mask_from (residual_map_with_mask_from d mk m) n mk) mk in
+  chi_squared_with_mask_fast_from d mk m n = via_maps /\
+  chi_squared_from (chi_squared_map_from (residual_map_from (select mk d) (select mk m)) (select mk n)) = via_maps.
+Proof.
+  cbv zeta. unfold chi_squared_with_mask_fast_from, chi_squared_with_mask_from, chi_squared_map_with_mask_from,
+    residual_map_with_mask_from, chi_squared_from, chi_squared_map_from, residual_map_from.
+  rewrite select_map, !select_map2w, select_map2. split; reflexivity.
+Qed.
+
 (* ================================================================== 3. model = specification at the reals *)
 (* the reals with an ARBITRARY function in the ln slot *)
 Definition RL (lnf : R -> R) : NumOps := with_ln ROps lnf.
